@@ -155,7 +155,7 @@ def xy(m, n, x, y, cartesian_grid=True):
         list of modes, in the same order as mns
 
     """
-    if cartesian_grid:
+    if cartesian_grid and x.ndim > 1:
         x, y = optimize_xy_separable(x, y)
 
     return x**m * y**n
